@@ -8,6 +8,9 @@ CHOICE-order / ENUMERATED / INTEGER / SIZE / extension boundary shapes.  A disag
 
 F112 (SIZE(lb..MAX,...)) and F114 (largest character value = 2^b) are repaired: their former regions are compared like
 any other type, their former witnesses are the first values of FSoM0 / FAl9 of the fixed module.
+F111 (T ::= GeneralizedTime / UTCTime, B ::= A with A an unconstrained known-multiplier string: 8-bit characters), F38 / F123
+(B ::= A with A a CHOICE / an ENUMERATED) and F46 (named plain NumericString) are repaired: `genmod.alias_module` has these
+shapes as top-level types, members, alternatives and elements (the former F111 witness is the first value of its type Gt).
 Regions of confirmed deviations of asn1c from X.691 are skipped narrowly: by type feature (`type_region`) or,
 where the deviation depends on the value, by (type, value) (`value_region`); their witnesses are in
 PROPOSED_FINDINGS (to be merged into KNOWN_FINDINGS.json, then replayed by gfind.replay_witnesses)."""
@@ -58,15 +61,6 @@ def _types_below(t, env, seen=None):
     elif k in ("SEQUENCE OF", "SET OF"):
         yield from _types_below(t["elem"], env, seen)
 
-def _bare_string_alias(d, env):
-    """a type assignment that only references an unconstrained known-multiplier string type: `B ::= A` with
-    `A ::= IA5String`, or `T ::= GeneralizedTime` (the time types are references to skeleton types themselves)"""
-    if d["k"] in TIME_KINDS: return True
-    if d["k"] != "REF": return False
-    x, n = d, 0
-    while x["k"] == "REF" and n < 16: x = env[x["name"]]; n += 1
-    return x["k"] in KM_KINDS + TIME_KINDS and not x.get("size") and not x.get("alpha")
-
 def _ext_alts_unordered(x, env, tagdefault):
     """X.680 (ChoiceType): the tags of the extension addition alternatives must be in canonical order; asn1c accepts
     modules that violate this and sorts the additions, so the index of an addition is not defined by X.691"""
@@ -76,10 +70,10 @@ def _ext_alts_unordered(x, env, tagdefault):
 
 def type_region(t, env, tagdefault=None):
     """finding id of a type-level deviation region the type touches, or None"""
-    if _bare_string_alias(t, env): return "F111"
+    # F111 (T ::= GeneralizedTime / UTCTime, B ::= A with A an unconstrained known-multiplier string) is repaired:
+    # such type assignments carry the PER constraints of the type they reference and are compared like any other type
     for x in _types_below(t, env):
         k = x["k"]
-        if k == "REF" and _bare_string_alias(env[x["name"]], env): return "F111"   # 8 bits per character
         if k == "CHOICE" and _ext_alts_unordered(x, env, tagdefault): return "illegal-module:ext-alternatives-not-in-tag-order"
         if k == "ENUMERATED" and x.get("ext"):
             rv, xv = genmod.enum_values(x)
@@ -304,14 +298,6 @@ PROPOSED_FINDINGS = [
               "accepts both)",
        "M DEFINITIONS ::= BEGIN T ::= INTEGER (MIN..5, ...) END", "T", "enc uper (int 7)", r"^ok 008380$",
        "syntax == uper and an INTEGER value above the upper bound of an extensible constraint without lower bound", "ok 808380"),
-    _w("F111", "UPER: a type assignment that merely references an unconstrained known-multiplier string type gets no PER constraints "
-               "(same family as F38/F46): T ::= GeneralizedTime / UTCTime (the time types are references to skeleton types), or B ::= A with "
-               "A ::= IA5String / VisibleString / BMPString ...: the characters of T / B - and of every member, element or alternative of type "
-               "T / B - are written with 8 bits (BMPString: 8 instead of 16, losing the high octet) instead of the 7 bits of VisibleString / "
-               "IA5String (X.680 46.3/47.3, X.691 30.5); the same type used inline (g GeneralizedTime) or referenced directly (x A) is encoded "
-               "correctly, so one abstract type has two encodings",
-       "M DEFINITIONS ::= BEGIN T ::= GeneralizedTime END", "T", "enc uper (os 31393730303130313030303030305a)", r"^ok 0f31393730303130313030303030305a$",
-       "syntax == uper and the type is, or references, a type assignment that is a bare reference to an unconstrained known-multiplier string / time type", "ok 0f62e5bb060c583160c183060c2d00"),
     _w("F113", "UPER: a known-multiplier character string whose extensible SIZE is exceeded is written with 8/16/32-bit characters "
                "(canonical_unit_bits) instead of the character width of the unconstrained type (IA5String/VisibleString/PrintableString 7 bits, "
                "NumericString 4 bits): X.691 30.4 'as if there was no effective size constraint ... permitted alphabet = all characters of the "
@@ -388,6 +374,7 @@ def run_uper(ctx, nb=None, nvals=None):
     fm, fvals = fixed_module(ctx.rng, ctx.quick)
     xm, xvals = genmod.ext64_module(ctx.rng)       # extension indexes / bitmap lengths from 64 on (F29 / F64 repaired)
     cases = [(fm, fvals), (bm, bvals), (xm, xvals)]
+    cases += [genmod.alias_module(td) for td in (None, "AUTOMATIC")]    # references to CHOICE / ENUMERATED / string / time types (F38 / F123 / F111 / F46 repaired)
     for m in mods:
         env = dict(m["types"])
         vg = genmod.ValGen(ctx.rng, env)
